@@ -332,7 +332,19 @@ def ev_msgt(job, light):
     return evs
 
 
-KINDS = {"msg": ev_msg, "namew": ev_namew, "rdw": ev_rdw, "optw": ev_optw, "namet": ev_namet, "rdt": ev_rdt,
+def ev_optm(job, light):
+    """An option inside the OPT record of a message: the message under every option vector,
+    and the OPT RDATA on its own through dns.rdata.from_wire."""
+    w = bytes(job["w"])
+    evs = ev_msg(job, light)
+    for org in (0, 1):
+        origin = EXAMPLE if org else None
+        evs.append(call("rdw", [org], lambda: dns.rdata.from_wire("IN", "OPT", w, job["cur"], job["len"], origin),
+                        lambda rd: rd.to_text(), lambda rd: rd.to_wire(origin=origin)))
+    return evs
+
+
+KINDS = {"optm": ev_optm, "rdg": ev_rdt, "msg": ev_msg, "namew": ev_namew, "rdw": ev_rdw, "optw": ev_optw, "namet": ev_namet, "rdt": ev_rdt,
          "ttl": ev_ttl, "zone": ev_zone, "msgt": ev_msgt}
 _LIMITED = False
 
